@@ -13,7 +13,7 @@ Open Scope Z_scope.
 
 (* the emitted entries = the causal past of the upper bound, newest first, each once, then cut *)
 Theorem C15_iterator_range ops r l o st :
-  wf ops -> Z.of_nat (length ops) < two63 -> nth_error (s_logs (run ops)) r = Some l ->
+  wf ops -> hist_bound ops < two63 -> nth_error (s_logs (run ops)) r = Some l ->
   order_total l ->                                (* hash-tiebreak ordering, or default ordering without ties *)
   it_amount o <> Some 0 ->
   iter_start l o = Ok st ->                       (* the upper bounds are entries of the log *)
